@@ -363,7 +363,11 @@ fn do_run(rt: &tokio::runtime::Runtime, w: &mut CaseWriter, self_id: u8, evs: &[
 
 /// Hands every change the real watcher publishes for `snaps` to the real task distributor,
 /// queues one put and returns the addresses whose node received it with the next batch.
-async fn run_dist(self_id: u8, snaps: &[Snapshot]) -> Result<Vec<u16>, String> {
+///
+/// With `victim = Some(v)`, before that put an earlier one is queued while the `v`-th live peer
+/// is unreachable for one batching interval (the batch to it fails) and reachable again
+/// afterwards: membership did not change, so the next batch still has to address it.
+async fn run_dist(self_id: u8, snaps: &[Snapshot], victim: Option<usize>) -> Result<Vec<u16>, String> {
     use std::sync::Arc;
 
     use datacake_crdt::HLCTimestamp;
@@ -437,6 +441,25 @@ async fn run_dist(self_id: u8, snaps: &[Snapshot]) -> Result<Vec<u16>, String> {
         let change = probe.borrow_and_update().clone();
         distributor.membership_change(change);
     }
+    if let Some(v) = victim {
+        let mut live: Vec<u16> = snaps
+            .last()
+            .map(|s| s.iter().filter(|(i, _, _)| *i != self_id).map(|(_, a, _)| *a).collect())
+            .unwrap_or_default();
+        live.sort();
+        live.dedup();
+        if !live.is_empty() {
+            let down = addr_of(live[v % live.len()]);
+            datacake_rpc::verif::set_link_up(down, false);
+            let doc = Document::new(6, HLCTimestamp::from_u64(clock.get_time().await.as_u64()), vec![9]);
+            distributor.mutation(Mutation::Put { keyspace: Cow::Borrowed(KS), doc });
+            tokio::time::sleep(std::time::Duration::from_millis(1500)).await;
+            for _ in 0..50 {
+                tokio::task::yield_now().await;
+            }
+            datacake_rpc::verif::set_link_up(down, true);
+        }
+    }
     let doc = Document::new(7, HLCTimestamp::from_u64(clock.get_time().await.as_u64()), vec![1, 2, 3]);
     distributor.mutation(Mutation::Put { keyspace: Cow::Borrowed(KS), doc });
     tokio::time::sleep(std::time::Duration::from_millis(2500)).await;
@@ -458,11 +481,15 @@ async fn run_dist(self_id: u8, snaps: &[Snapshot]) -> Result<Vec<u16>, String> {
     Ok(got)
 }
 
-fn do_dist(w: &mut CaseWriter, self_id: u8, snaps: &[Snapshot]) {
+fn do_dist(w: &mut CaseWriter, self_id: u8, snaps: &[Snapshot], victim: Option<usize>) {
     let parts: Vec<String> = snaps.iter().map(show_snapshot).collect();
-    let case = format!("dist {:x} {}", self_id, parts.join(" "));
+    let kind = match victim {
+        None => "dist".to_string(),
+        Some(v) => format!("distf{}", v),
+    };
+    let case = format!("{} {:x} {}", kind, self_id, parts.join(" "));
     let rt = tokio::runtime::Builder::new_current_thread().enable_all().start_paused(true).build().unwrap();
-    let out = rt.block_on(run_dist(self_id, snaps));
+    let out = rt.block_on(run_dist(self_id, snaps, victim));
     drop(rt);
     match out {
         Err(e) => {
@@ -475,7 +502,7 @@ fn do_dist(w: &mut CaseWriter, self_id: u8, snaps: &[Snapshot]) {
                 format!("[{}]", p.join(","))
             };
             w.case(&case, &format!("recv={}", show(&got)));
-            w.stats.hit("dist_cases");
+            w.stats.hit(if victim.is_some() { "dist_cases_with_a_failed_batch" } else { "dist_cases" });
             // Oracle: the batch addresses exactly the live peers of the last snapshot.
             let mut want: Vec<u16> = snaps
                 .last()
@@ -966,7 +993,12 @@ fn main() {
             match parse_case(line) {
                 Some((kind, self_id, evs)) if kind == "run" => do_run(&rt, &mut w, self_id, &evs),
                 Some((kind, self_id, evs)) if kind == "glue" => do_glue(&mut w, self_id, &evs),
-                Some((kind, self_id, evs)) if kind == "dist" => {
+                Some((kind, self_id, evs)) if kind == "dist" || kind == "distf0" || kind == "distf1" => {
+                    let victim = match kind.as_str() {
+                        "distf0" => Some(0),
+                        "distf1" => Some(1),
+                        _ => None,
+                    };
                     let snaps: Vec<Snapshot> = evs
                         .iter()
                         .filter_map(|e| match e {
@@ -974,7 +1006,7 @@ fn main() {
                             _ => None,
                         })
                         .collect();
-                    do_dist(&mut w, self_id, &snaps)
+                    do_dist(&mut w, self_id, &snaps, victim)
                 },
                 Some((kind, self_id, evs)) if kind == "diff" => match evs.as_slice() {
                     [Ev::Snap(a), Ev::Snap(b)] => do_diff(&rt, &mut w, self_id, a, b),
@@ -1024,8 +1056,14 @@ fn main() {
         let mut idx = vec![0usize; len];
         loop {
             let snaps: Vec<Snapshot> = idx.iter().map(|i| uni2[*i].clone()).collect();
-            do_dist(&mut w, 0, &snaps);
+            do_dist(&mut w, 0, &snaps, None);
             ndist += 1;
+            if len <= 2 {
+                // the same with one batch failing for one live peer (first / second by address)
+                do_dist(&mut w, 0, &snaps, Some(0));
+                do_dist(&mut w, 0, &snaps, Some(1));
+                ndist += 2;
+            }
             let mut p = len;
             let mut done = false;
             loop {
@@ -1047,7 +1085,7 @@ fn main() {
     }
     for a in &uni3 {
         for b in &uni3 {
-            do_dist(&mut w, 0, &[a.clone(), b.clone()]);
+            do_dist(&mut w, 0, &[a.clone(), b.clone()], None);
             ndist += 1;
         }
     }
